@@ -45,6 +45,8 @@ def lookup(V, name):
         return parameter_ns(V)
     if name == 'object':
         return MCls('object')
+    if name in ('bytes', 'bytearray', 'memoryview'):
+        return MCls(name)
     if name in ('T_INT', 'T_STR', 'T_BOOL', 'T_ANY', 'T_PATH'):
         from .calls import MType
         return MType({'T_INT': INT, 'T_STR': STR, 'T_BOOL': BOOL, 'T_ANY': ANY, 'T_PATH': PATH}[name])
@@ -219,6 +221,10 @@ def isinstance_one(V, st, v, clsname):
             return z3.And(nn, z3.BoolVal(clsname == 'tuple'))
         if isinstance(t, ObjT) and t.family == 'Live':
             f = V.uf('isinstance[%s]' % clsname, [Ref], z3.BoolSort())
+            return z3.And(nn, f(v.z))
+        if t == ANY:
+            # an opaque value: its class is an unknown but fixed fact about it
+            f = V.uf('isinstance_any[%s]' % clsname, [v.z.sort()], z3.BoolSort())
             return z3.And(nn, f(v.z))
         if isinstance(t, ObjT):
             if clsname in ('str', 'int', 'bool', 'list', 'tuple', 'dict', 'set'):
